@@ -14,7 +14,7 @@ EXPLANATION = ('Noninterference proof by abstract interpretation: each function 
                'arguments, panic conditions, values passed to opaque callees) is an over-approximation, and it is '
                'disjoint from the hidden-lane atoms.  Holds for all inputs under the trusted intrinsic table.')
 
-CONFIGS_QUICK = ['sse2', 'coresimd']
+CONFIGS_QUICK = ['sse2', 'sse2-fma', 'coresimd']
 CONFIGS_THOROUGH = ['sse2', 'coresimd', 'neon', 'wasm32', 'sse2-fma']
 
 # measured when the rule was armed (sse2: 1170 instances); see DESIGN 4/C08
